@@ -775,7 +775,8 @@ class Engine(Evaluator):
             # (opt results fork on a fresh flag: the branch contradicting the ensures is infeasible by construction)
             return self._apply_contract(c, args, kw, st, node)
         line = (getattr(node, 'lineno', self.cur_func_line) - self.cur_func_line) if node is not None else 0
-        nm = '%s.canary.%s@L%d' % (self.cur_tag, c.qual, line)
+        self._canary_n = getattr(self, '_canary_n', 0) + 1
+        nm = '%s.canary.%s@L%d#%d' % (self.cur_tag, c.qual, line, self._canary_n)
         before = Ob(nm + '.before', 'cover', 'consistent-before-call', list(st.pc), None, line, self.cur.key)
         res = self._apply_contract(c, args, kw, st, node)
         after = Ob(nm + '.after', 'cover', 'consistent-after-call', list(st.pc), None, line, self.cur.key)
